@@ -412,6 +412,14 @@ class ZoneFn:
             return None
         comps = pzf.iter_components(t['args'][0])
         if comps is None:
+            # the iterator is a parameter of the creating function (`terms: impl Iterator<Item = (&usize, Scalar)>`): its items are whatever the
+            # caller's iterator yields; named `elem:<param>[.<component>]` and resolved at each call site
+            a0 = t['args'][0]
+            if a0['k'] in ('copy', 'move'):
+                root, path = pzf.fd.resolve_place(a0['pl'])
+                if pzf.fd.is_param(root) and not path and pzf.body.kind != 'Closure' \
+                        and not pzf.body.local_ty(root).replace('&mut ', '').lstrip('&').strip().startswith(('[', 'std::vec::Vec<')):
+                    return 'elem:%s%s' % (pzf.body.local_name(root), ('.' + comp) if comp else '')
             return None
         if comp == '':
             return pzf.elem_sym_of_desc(comps[0]) if len(comps) == 1 and comps[0] is not None else None
@@ -1257,6 +1265,10 @@ class ZoneFn:
                 return ('to', None, self.term_op(rv['ops'][0]), rv['ops'])
             if nm == 'std::ops::RangeFull':
                 return ('full', None, None, rv['ops'])
+            if nm == 'std::ops::RangeToInclusive' and len(rv['ops']) == 1:
+                e = self.term_op(rv['ops'][0])
+                if e is not None:
+                    return ('to', None, tadd(e, 1), rv['ops'])       # ..=e is ..e+1 (terms are unbounded integers)
             if nm == 'std::ops::RangeInclusive' or nm == 'std::ops::RangeToInclusive':
                 return ('incl', None, None, rv['ops'])
         return None
@@ -1556,6 +1568,20 @@ class ZoneFn:
         tf, ff = self._cmp_facts(op, a, b)
         return tf if neg else ff
 
+    def _none_facts_of_helper(self, call):
+        """a local search helper returned None: the facts its summary guarantees then, in this body's terms"""
+        from flow import local_target
+        tgt = local_target(self.za.eng, call)
+        if tgt is None or tgt == self.body.path:
+            return None
+        summ = self.za.summary(tgt)
+        out = []
+        for (a, b) in (summ or {}).get('post_none', []):
+            a2, b2 = self.za.subst(self, call, a), self.za.subst(self, call, b)
+            if a2 is not None and b2 is not None:
+                out.append((a2, b2))
+        return out or None
+
     def _none_facts_of_find(self, t):
         """switch on discriminant(iter.find(p)) / iter.position(p): on the None edge no element satisfies p"""
         pl = t['discr']['pl']
@@ -1565,6 +1591,10 @@ class ZoneFn:
         if not d or d[0] != 'assign' or d[2]['rv']['k'] != 'discr' or d[2]['rv']['pl'].get('p'):
             return None
         d2 = self.single_def(d[2]['rv']['pl']['l'])
+        if d2 and d2[0] == 'call':
+            hf = self._none_facts_of_helper(d2[2])
+            if hf:
+                return hf
         if not d2 or d2[0] != 'call' or (d2[2].get('callee') or '') not in ('std::iter::Iterator::find', 'std::iter::Iterator::position') or len(d2[2]['args']) != 2:
             return None
         x = d2[2]
@@ -1621,6 +1651,10 @@ class ZoneFn:
                             continue
                     break
                 o = self._origin_call(r0)
+                if o:
+                    hf = self._none_facts_of_helper(o[1])
+                    if hf:
+                        return ('FACTS', hf, [], False) if cal.endswith('is_none') else ('FACTS', [], hf, False)
                 if o and (o[1].get('callee') or '') in ('std::iter::Iterator::find', 'std::iter::Iterator::position') and len(o[1]['args']) == 2 \
                         and o[1]['args'][1]['k'] in ('copy', 'move') and not o[1]['args'][1]['pl'].get('p'):
                     es = self.elem_sym_of_iter(o[1]['args'][0])
